@@ -169,7 +169,53 @@ def fam_rect(rng, kind, quick):
     return p
 
 
-FAMS = [fam_rect, fam_circle_in_square, fam_nested_polygons, fam_annulus, fam_rounded]
+def periodic_type(kind, rng):
+    """BdryType of a periodic / antiperiodic condition in this file type"""
+    return {"fee": 3, "feh": 4, "fem": 4}[kind] + rng.choice([0, 1])
+
+
+def fam_periodic_arcs(rng, kind, quick, order=None, segs=None):
+    """translation-periodic cell whose left and right faces are equal arcs (the right one is the left
+    one shifted by W); the two arcs may request different segment angles and be listed in either order"""
+    B = Builder(kind); ids = base_props(B, kind, rng); settings(B, rng, quick)
+    B.p["dosmartmesh"] = 0
+    per = B.prop("bdryprops", name="per", type=periodic_type(kind, rng))
+    W, H = rng.choice([3.0, 4.0]), rng.choice([2.0, 2.5])
+    ang = rng.choice([40.0, 60.0, 90.0])
+    d = mesh_diameter(W * H / (40 if quick else 400))
+    a = B.point(0.0, 0.0); b = B.point(0.0, H); c = B.point(W, 0.0); e = B.point(W, H)
+    B.seg(a, c, bdry=ids["bdry"][0]); B.seg(b, e, bdry=ids["bdry"][1])
+    m0, m1 = segs or rng.choice([(10.0, 10.0), (5.0, 15.0), (15.0, 5.0), (20.0, 4.0), (4.0, 20.0), (30.0, 30.0)])
+    left = dict(n0=a, n1=b, angle=ang, maxseg=m0, bdry=per)
+    right = dict(n0=c, n1=e, angle=ang, maxseg=m1, bdry=per)
+    order = order or rng.choice(["left-first", "right-first"])
+    for arc in ([left, right] if order == "left-first" else [right, left]):
+        B.arc(arc["n0"], arc["n1"], arc["angle"], maxseg=arc["maxseg"], bdry=arc["bdry"])
+    # an inner box of another material
+    B.rect(W * 0.4, H * 0.3, W * 0.7, H * 0.7)
+    B.label(W * 0.55, H * 0.5, ids["mats"][1], maxarea=d / 2)
+    B.label(W * 0.3, H * 0.15, ids["mats"][0], maxarea=d)
+    B.p["features"] = ["periodic-arcs", kind, order, "maxseg%g/%g" % (m0, m1), "span%g" % ang, "bdrytype%d" % B.p["bdryprops"][per - 1]["type"]]
+    return B.p
+
+
+def fam_periodic_lines(rng, kind, quick):
+    """rectangle with (anti)periodic left/right sides carrying different spacings"""
+    B = Builder(kind); ids = base_props(B, kind, rng); settings(B, rng, quick)
+    B.p["dosmartmesh"] = 0
+    per = B.prop("bdryprops", name="per", type=periodic_type(kind, rng))
+    W, H = rng.choice([3.0, 4.0]), rng.choice([2.0, 3.0])
+    d = mesh_diameter(W * H / (40 if quick else 400))
+    s0, s1 = rng.choice([(-1, -1), (0.5, -1), (-1, 0.25), (0.5, 0.2), (0.3, 0.3)])
+    B.rect(0.0, 0.0, W, H, dict(l=dict(bdry=per, maxside=s0), r=dict(bdry=per, maxside=s1), b=dict(bdry=ids["bdry"][0]), t=dict(bdry=ids["bdry"][1])))
+    B.rect(W * 0.3, H * 0.3, W * 0.6, H * 0.7)
+    B.label(W * 0.45, H * 0.5, ids["mats"][1], maxarea=d / 2)
+    B.label(W * 0.15, H * 0.15, ids["mats"][0], maxarea=d)
+    B.p["features"] = ["periodic-lines", kind, "maxside%g/%g" % (s0, s1), "bdrytype%d" % B.p["bdryprops"][per - 1]["type"]]
+    return B.p
+
+
+FAMS = [fam_rect, fam_circle_in_square, fam_nested_polygons, fam_annulus, fam_rounded, fam_periodic_arcs, fam_periodic_lines]
 KINDS = ["fee", "feh", "fem"]
 
 
